@@ -647,6 +647,11 @@ pub fn plan_c12(tier: &str) -> (PropMeta, Vec<Job>) {
             }
         }
     }
+    // a cache that holds about two messages: appends evict (the eviction tasks run to completion right
+    // after the step that spawned them), polls cross the cache / disk / buffer borders
+    for nowait in [false, true] {
+        cfgs.push(NodeCfg { threshold: 1, seg_size: super::plogp::SEG_SMALL, cache: true, cache_size: super::plogp::TINY_CACHE, nowait, tick: 1, ..Default::default() });
+    }
     let scenarios: Vec<&str> = if quick { vec!["2p1c", "2p1c-flush", "2p1c-small"] } else { vec!["2p1c", "2p1c-flush", "2p1c-save", "2p1c-small"] };
     for cfg in &cfgs {
         for sc in &scenarios {
